@@ -30,7 +30,7 @@ PROBES = ["fallback_taken", "fallback_desc_false", "model_kept", "all_untrained"
           "memorise_worse_branch", "override_on", "enc_pm1", "enc_10", "enc_bool", "parquet", "workers>1",
           "zero_scores_returned", "multi_file", "confidence_checked", "confidence_desc_false", "fold_aligned_feature",
           "folds_disagree_on_best_feature", "all_trained_but_fallback", "confidence_rollup_level_checked", "confidence_repeated",
-          "feat_pass_compared_with_reference", "integer_best_feature", "tied_values_compete", "targets_listed_before_decoys"]
+          "feat_pass_compared_with_reference", "integer_best_feature", "tied_values_compete", "targets_listed_before_decoys", "saved_and_loaded_models_reapplied"]
 RULE = (
     "For each sampled data set (planted strong feature, lower-is-better in half of them; 3 label encodings; text/Parquet) "
     "and fold count, EVERY assignment of {good, noise, constant, raise_recognised, anti, memorise, overfit} to the folds' estimators "
@@ -331,6 +331,27 @@ def run_scenario(scn, workdir):
                             f"{'feature ' + is_feature if is_feature else 'not a feature column'} with descs={descs} "
                             f"(modes={modes}, trained={trained}, zero scores={bool(probes['zero_scores_returned'])})",
                             zero_scores=bool(probes["zero_scores_returned"]), fallback=is_feature is not None)
+    # ------------------------------------------------ the recorded direction survives saving and loading the models
+    if all(trained) and is_feature is not None and not cfg["override"]:
+        import pickle
+
+        try:
+            models2 = [pickle.loads(pickle.dumps(m)) for m in models]  # what Model.save / load_model do
+        except Exception as exc:  # noqa: BLE001
+            return viol("run_failed", f"a trained model cannot be pickled: {type(exc).__name__}: {exc}"[:200])
+        cfg3 = dict(cfg)
+        cfg3.update(confidence=False, max_workers=1)
+        r3 = P.run_pipeline(tables, cfg3, workdir, "pass3", fmt=scn["format"], row_group=scn.get("row_group"),
+                            sched_desc={"mode": "fifo"}, knobs=scn.get("knobs"), models_in=models2, stop_after="brew")
+        probes["saved_and_loaded_models_reapplied"] = 1
+        if r3.exc is not None:
+            return viol("run_failed", f"brew with the saved-and-loaded models failed: {r3.error}", **r3.err_sig())
+        if list(r3.descs) != list(descs) or any(not np.array_equal(a, b) for a, b in zip(r3.scores, scores)):
+            return viol("fallback_direction", f"re-applied after a save/load round trip, the same models on the same data give "
+                        f"descs={list(r3.descs)} (before: {list(descs)}) and "
+                        f"{'other' if any(not np.array_equal(a, b) for a, b in zip(r3.scores, scores)) else 'the same'} scores; "
+                        f"recorded desc before/after: {[m.desc for m in models]} / {[m.desc for m in models2]}",
+                        lower_better=scn["data"]["lower_better"] is not None, roundtrip=True)
     # ------------------------------------------------ confidence honours the direction
     if all(len(np.unique(s)) < 3 for s in scores):
         return out  # degenerate: all-equal scores; PEP estimation domain
